@@ -45,6 +45,8 @@ CLAIMS = {
          "getAllParticlesData/Rhs entry i must equal the data/result of the particle inserted at i, for all generated trees.", "3/C17"),
  "C18": ("property-based testing: counter wrapper differential (results vs unwrapped kernel) and merged counters vs model counts, OpenMP under mock-runtime schedules",
          "Generated trees, thread counts, schedules and merge orders; counts must equal the numbers of elementary interactions implied by the model, results must be unchanged.", "3/C18"),
+ "C19": ("generated per-configuration programs (one translation unit per point of the documented template cross product) compiled and then run with embedded property-based oracles",
+         "Each configuration must compile and link, and satisfy the embedded structure/construction/exactly-once/rebuild oracles on generated cases; build failure = violation with the compiler log as replay.", "3/C19"),
  "C20": ("property-based testing of FP2PR against an independent extended-precision evaluation of the pairwise law with a stated rounding tolerance; metamorphic mutual = two one-sided",
          "Generated clouds over 12 orders of magnitude of separation and counts around SIMD widths; every output component compared with a long double reference; self term, accumulation into pre-filled arrays, Newton's third law.", "3/C20"),
 }
